@@ -21,6 +21,11 @@ def main():
     tier = os.environ.get("SEED_TIER", "quick")
     wt = "/tmp/seedwt/" + name
     os.makedirs("/tmp/seedwt", exist_ok=True)
+    done = "/tmp/seedwt/%s.done" % name
+    if os.path.exists(done) or os.path.exists(done + ".running"):
+        print(name, "already handled by another queue in this pass")
+        return
+    open(done + ".running", "w").write(str(os.getpid()))
     sh(["git", "-C", "/repo", "worktree", "remove", "--force", wt])
     rc, out = sh(["git", "-C", "/repo", "worktree", "add", "--detach", wt, "HEAD"])
     assert rc == 0, out
@@ -69,6 +74,7 @@ def main():
     json.dump(meta, open(os.path.join(dst, "meta.json"), "w"), indent=1)
     sh(["git", "-C", "/repo", "worktree", "remove", "--force", wt])
     shutil.rmtree("/tmp/seedwt/target-" + name, ignore_errors=True)
+    os.rename(done + ".running", done)
     print(name, "confirmed=%s" % confirmed, {p: (r["exit"], r["lines"][-1:] ) for p, r in results.items()})
 
 
